@@ -294,7 +294,23 @@ fn pick_shares(rng: &mut StdRng, fractional: bool) -> Decimal {
     }
 }
 
+/// quantities a user would type: at most ten decimal places.  Selling "everything" of a balance that no
+/// decimal represents exactly (after a split into thirds) therefore leaves a residue of less than 1e-10
+/// shares - in acb and in the exact rules alike
+fn typed(q: Decimal, held: Decimal) -> Decimal {
+    let t = q.round_dp_with_strategy(10, rust_decimal::RoundingStrategy::ToZero);
+    if t.is_zero() {
+        held.min(q)
+    } else {
+        t
+    }
+}
+
 fn pick_sell(rng: &mut StdRng, held: Decimal, profile: Profile) -> Decimal {
+    typed(pick_sell_raw(rng, held, profile), held)
+}
+
+fn pick_sell_raw(rng: &mut StdRng, held: Decimal, profile: Profile) -> Decimal {
     match rng.gen_range(0..10) {
         0..=5 if profile == Profile::Costs => held,
         0..=2 => held,
